@@ -255,6 +255,7 @@ DEFAULT_PROFILE: Dict[str, Any] = {
     "search_type": None,  # None = nearest_shortest_queue (9 of 10) or shortest_time_to_charge
     "idle_time_out": None,
     "colocate": 0.25,
+    "depot": 0.0,  # probability (in fleets scenarios) of a depot shared by up to three human drivers
     "detached_base_station": 0.0,  # probability that a base's station is entered at other coordinates than the base
     "starts": [0, 0, 900, 1000, 3600, 9900, 43200, 86399, 99900],  # 900 / 9900 / 99900: epoch times change their number of digits during the run
 }
@@ -493,6 +494,24 @@ def random_spec(seed: int, profile: Optional[Dict[str, Any]] = None) -> Dict[str
                 k = 0 if r < 0.3 else 1 if r < 0.85 else 2
                 for fid in rnd.sample(fids, k=min(k, nf)):
                     fleets[fid]["stations"].append(s["id"])
+    # --- a depot shared by several human drivers of one fleet: fewer plugs than drivers, a stall for each (the base, its
+    # station and the drivers are listed under the fleet, so access does not hang on the private home-base ids)
+    if fleets and P.get("depot") and rnd.random() < P["depot"]:
+        humans = [v for v in vehicles if v.get("home_base")][:3]
+        if len(humans) >= 2:
+            dp = geo.anchor(geo.fresh())
+            stations.append({"id": "depot_s", "lat": dp[0], "lon": dp[1], "plugs": [{"charger": "LEVEL_2", "count": 1, "on_shift": False}] + ([{"charger": "DCFC", "count": 1, "on_shift": False}] if rnd.random() < 0.5 else [])})
+            bases.append({"id": "depot", "lat": dp[0], "lon": dp[1], "station": "depot_s", "stalls": len(humans)})
+            fid = fids[0]
+            fleets[fid]["bases"].append("depot")
+            fleets[fid]["stations"].append("depot_s")
+            for v in humans:
+                v["home_base"] = "depot"
+                v["mech"] = "leaf_50"
+                if v["id"] not in fleets[fid]["vehicles"]:
+                    fleets[fid]["vehicles"].append(v["id"])
+                if rnd.random() < 0.6:
+                    v["lat"], v["lon"] = dp  # starts the run at the depot
     # --- requests (sorted by time)
     nr = _pick(rnd, P["n_requests"])
     requests = []
